@@ -31,6 +31,7 @@ type openRun struct {
 	nonce  uint64
 	noDup  bool // never put a second entry into one cache map (keeps the run deterministic)
 	tipSeq int
+	flipWatch    bool // the application may set the watch-only flag at any moment (not in shift pairs)
 	pendingReset bool // the application's ledger has moved on, Reset not called yet
 }
 
@@ -129,6 +130,7 @@ func newOpenRun(out *TraceWriter, seed int64, run int, epoch int64, emitStart bo
 func runOpen(out *TraceWriter, seed int64, run int, steps int) {
 	seedNonces(seed*7 + int64(run))
 	o := newOpenRun(out, seed, run, 1000, true, 500)
+	o.flipWatch = true
 	o.c.Emit(o.n.Start())
 	for s := 0; s < steps; s++ {
 		if l := o.step(); l != nil {
@@ -141,6 +143,9 @@ func runOpen(out *TraceWriter, seed int64, run int, steps int) {
 func (o *openRun) step() *Line {
 	rng, n, c := o.rng, o.n, o.c
 	d := n.D
+	if o.flipWatch && !n.Cfg.Watch && rng.Intn(300) == 0 {
+		n.SetWatch() // the watch-only flag is set while the node is running
+	}
 	switch weighted(rng, []int{60, 12, 8, 7, 2, 5, 3, 3}) {
 	case 0:
 		if p := o.craft(); p != nil {
